@@ -1,7 +1,7 @@
 #!/venv/bin/python
 """development helper: run a replay file in-process with Rally logging enabled to stderr"""
 import sys, os, json, importlib, logging
-sys.path[:0] = ["/verif", "/repo"]
+sys.path[:0] = ["/verif", os.environ.get("VERIF_REPO", "/repo")]
 import check as checkmod
 from sim import batch
 path = sys.argv[1]
